@@ -56,6 +56,11 @@ func scenWriters(e *Env, args []string, r *rand.Rand) {
 	if m["pause"] != "" {
 		p.plugin.WriterPause = time.Duration(atoi(m["pause"], 0)) * time.Millisecond
 	}
+	if m["end"] == "veto" {
+		p.plugin.HandlerVeto = 1
+		p.plugin.VetoNotif = &bgp.Notification{Code: 3, Subcode: 9, Data: []byte{7, 7}}
+	}
+	p.plugin.WriteEmpty = m["empty"] == "1"
 	if m["adv"] == "1" && dir == "in" {
 		e.serveAdversary()
 	} else {
@@ -73,6 +78,19 @@ func scenWriters(e *Env, args []string, r *rand.Rand) {
 			// message; when it reads again the stream is still a sequence of whole messages
 			c.smallWindow()
 			c.pauseReads(time.Duration(st) * time.Millisecond)
+			if ca := atoi(m["ceaseat"], 0); ca > 0 {
+				// a Cease arrives while the writers are blocked by the remote's full window: the session is torn down
+				// (the blocked writers fail), OnClose follows, the connection is closed
+				time.Sleep(time.Duration(ca) * time.Millisecond)
+				c.send(wire.Notification(6, 2, nil))
+				p.waitEv(0, stepWait, "cb.exit", "OnClose")
+				// now the remote reads again and sees the connection end
+				c.resumeReads()
+				c.waitEnd(stepWait)
+				e.close()
+				p.plugin.waitWriters(2 * time.Second)
+				return
+			}
 			for t := 0; t < st; t += 700 {
 				time.Sleep(700 * time.Millisecond)
 				c.send(wire.Keepalive())
@@ -109,6 +127,10 @@ func scenWriters(e *Env, args []string, r *rand.Rand) {
 			c.drainClose()
 		case "fsmerr":
 			c.send(wire.Open(remoteAS, 3, remoteID))
+			c.waitEnd(stepWait)
+		case "veto":
+			// the handler answers an UPDATE with a NOTIFICATION while the writers are busy
+			c.send(wire.Update([]byte{9, 9, 9, 9}))
 			c.waitEnd(stepWait)
 		}
 		if m["end"] != "" && m["end"] != "none" && m["end"] != "close" {
@@ -214,6 +236,19 @@ func scenHold(e *Env, args []string, r *rand.Rand) {
 					c.send(wire.Update([]byte{0, 0, 0, 0}))
 				}
 				time.Sleep(gap)
+			}
+		case "updsilent":
+			// one UPDATE, then silence: the session expires one hold time after that UPDATE, not later
+			time.Sleep(300 * time.Millisecond)
+			c.send(wire.Update([]byte{0, 0, 0, 0}))
+			for time.Now().Before(deadline) {
+				c.mu.Lock()
+				ended := c.ended
+				c.mu.Unlock()
+				if ended != "" {
+					break
+				}
+				time.Sleep(5 * time.Millisecond)
 			}
 		case "slowupd":
 			// an UPDATE arrives shortly before the hold timer would expire and its handler runs past that instant;
@@ -330,6 +365,29 @@ func scenCollision(e *Env, args []string, r *rand.Rand) {
 		e.close()
 		return
 	}
+	if m["remotecease"] == "1" {
+		// the remote decides first: it closes the connection initiated by the non-dominant speaker with Cease/7 and
+		// completes the handshake on the other; corebgp neither damps nor loses the surviving connection
+		localID := e.localID.As4()
+		lid := uint32(localID[0])<<24 | uint32(localID[1])<<16 | uint32(localID[2])<<8 | uint32(localID[3])
+		loserC, winnerC := out, in // remote dominant: its own connection (inbound for corebgp) survives
+		if lid > rid {
+			loserC, winnerC = in, out
+		}
+		loserC.send(wire.Notification(6, 7, nil))
+		loserC.waitEnd(stepWait)
+		if winnerC == second {
+			second.send(open(second))
+			second.waitMsgs(2, stepWait)
+		}
+		winnerC.send(wire.Keepalive())
+		if p.waitEv(0, stepWait, "cb.exit", "OnEstablished") >= 0 {
+			winnerC.send(wire.Update([]byte{0, 0, 0, 7}))
+			p.waitEv(0, stepWait, "cb.exit", "handler")
+		}
+		e.close()
+		return
+	}
 	second.send(open(second))
 	// resolution: exactly one of them is closed
 	deadline := time.Now().Add(stepWait)
@@ -424,6 +482,28 @@ func scenCollisionWindow(e *Env, args []string, r *rand.Rand) {
 	in.send(wire.Open(remoteAS, 90, rid, tag(in)))
 	in.waitMsgs(2, stepWait)
 	p.waitEv(0, stepWait, "log.t", "in", "openSent", "openConfirm")
+	if variant == "loser-down" {
+		// the connection that is about to lose goes down on its own (the remote closes it); its error has been taken by
+		// the manager and its request to leave OpenConfirm is pending (held) when the winner asks for OpenConfirm: whichever
+		// case of the collision select fires, the winner continues
+		rel := e.hold("fsm.request#in")
+		in.fin()
+		if e.tr.wait(0, stepWait, func(ev Event) bool { return ev.Ev == "pt.reached" && ev.Args[0] == "fsm.request#in" }) < 0 {
+			e.fail("fsm.request#in not reached")
+		}
+		out.send(wire.Open(remoteAS, 90, rid, tag(out)))
+		time.Sleep(15 * time.Millisecond)
+		rel()
+		out.waitMsgs(2, stepWait)
+		time.Sleep(10 * time.Millisecond)
+		out.send(wire.Keepalive())
+		if p.waitEv(0, stepWait, "cb.exit", "OnEstablished") >= 0 {
+			out.send(wire.Update([]byte{0, 0, 0, 6}))
+			p.waitEv(0, stepWait, "cb.exit", "handler")
+		}
+		e.close()
+		return
+	}
 	release := e.hold("collision.select")
 	out.send(wire.Open(remoteAS, 90, rid, tag(out)))
 	if e.tr.wait(0, stepWait, func(ev Event) bool { return ev.Ev == "pt.reached" && ev.Args[0] == "collision.select" }) < 0 {
@@ -659,6 +739,18 @@ func scenShutdown(e *Env, args []string, r *rand.Rand) {
 			p2.waitEv(0, stepWait, "cb.exit", "OnEstablished")
 		}
 		e.close()
+	case "slow-handler":
+		// the stop arrives while the UPDATE handler is busy for longer than any internal patience: Close / DeletePeer
+		// still wait for the session to be torn down (OnClose delivered, Cease sent) before they return
+		p := e.addPeer(1, PeerOpts{LocalAS: localAS, RemoteAS: remoteAS, Hold: 90, Passive: dir == "in"})
+		p.plugin.HandlerDelay = 3600 * time.Millisecond
+		e.serve()
+		c := p.bring(dir, "established", 90, remoteID)
+		if c != nil {
+			c.send(wire.Update([]byte{0, 0, 0, 0}))
+			p.waitEv(0, stepWait, "cb.enter", "handler")
+			stop(p)
+		}
 	case "listeners":
 		// Serve on three listeners: Close ends all accept loops and returns
 		p := e.addPeer(1, PeerOpts{LocalAS: localAS, RemoteAS: remoteAS, Hold: 90, Passive: dir == "in"})
@@ -890,9 +982,29 @@ func scenDamping(e *Env, args []string, r *rand.Rand) {
 	dir, state, how := args[0], args[1], args[2]
 	m := argMap(args)
 	p := e.addPeer(1, PeerOpts{LocalAS: localAS, RemoteAS: remoteAS, Hold: 90, IdleHold: 100 * time.Millisecond, ConnectRetry: 300 * time.Millisecond, Passive: dir == "in"})
+	if d := atoi(m["slowerr"], 0); d > 0 {
+		// the Logger is slow on the line handleError prints first: the manager is busy handling the error for that
+		// long, and the remote reconnects at once meanwhile
+		e.errLogDelay = time.Duration(d) * time.Millisecond
+	}
 	e.serve()
 	c := p.bring(dir, state, 90, remoteID)
 	if c == nil {
+		e.close()
+		return
+	}
+	if m["slowerr"] != "" {
+		c.send(wire.Notification(3, 1, nil))
+		time.Sleep(5 * time.Millisecond)
+		// arrives while the error is being handled: it is dealt with once the peer is in hold-down, i.e. refused
+		if early := p.remote.dial(); early != nil {
+			early.waitMsgs(1, 200*time.Millisecond)
+			time.Sleep(20 * time.Millisecond)
+			early.drainClose()
+		}
+		c.waitEnd(stepWait)
+		e.tr.log(p.key, "fault-done")
+		time.Sleep(200 * time.Millisecond)
 		e.close()
 		return
 	}
@@ -905,6 +1017,21 @@ func scenDamping(e *Env, args []string, r *rand.Rand) {
 		c.waitEnd(stepWait)
 	case how == "cease":
 		c.send(wire.Notification(6, 2, nil))
+		c.waitEnd(stepWait)
+	case strings.HasPrefix(how, "rcvdcease."):
+		// a received Cease never damps, whatever its subcode (RFC 4486)
+		c.send(wire.Notification(6, uint8(atoi(how[10:], 0)), nil))
+		c.waitEnd(stepWait)
+	case how == "fin-midbody":
+		// the stream ends inside a message: a transport failure like any other
+		b := wire.Update([]byte{1, 2, 3, 4, 5, 6, 7, 8})
+		c.send(b[:23])
+		c.fin()
+		c.waitEnd(stepWait)
+	case how == "fin-midheader":
+		b := wire.Update([]byte{1, 2, 3, 4, 5, 6, 7, 8})
+		c.send(b[:7])
+		c.fin()
 		c.waitEnd(stepWait)
 	case how == "fin":
 		c.drainClose()
@@ -1026,6 +1153,39 @@ func scenAdmission(e *Env, args []string, r *rand.Rand) {
 		e.close()
 		return
 	}
+	if strings.HasSuffix(kase, "multi-wrong-dst") {
+		// two listeners bound to specific addresses; the peer is configured with local address 127.0.0.1: a connection
+		// that arrives on the other listener (127.0.0.3) is closed unserved, one on 127.0.0.1 is served
+		var ls []net.Listener
+		for _, a := range []string{"127.0.0.1:0", "127.0.0.3:0"} {
+			l, err := net.Listen("tcp", a)
+			if err != nil {
+				panic(err)
+			}
+			ls = append(ls, l)
+		}
+		e.lis = ls[0]
+		e.lisAddr = ls[0].Addr().String()
+		e.serveCh = make(chan error, 1)
+		e.tr.log("-", "api.call", "Serve")
+		go func() {
+			err := e.srv.Serve(ls)
+			e.tr.log("-", "api.ret", "Serve", errName(err))
+			e.serveCh <- err
+		}()
+		e.tr.log(p1.key, "probe", "wrongdst", p1.addr.String(), "127.0.0.3")
+		if c := p1.remote.dialFrom(p1.addr.String(), ls[1].Addr().String()); c != nil {
+			c.waitMsgs(1, 150*time.Millisecond)
+			c.waitEnd(stepWait)
+		}
+		e.tr.log(p1.key, "probe", "known", p1.addr.String(), "127.0.0.1")
+		if c := p1.remote.dialFrom(p1.addr.String(), ls[0].Addr().String()); c != nil {
+			c.waitMsgs(1, 300*time.Millisecond)
+		}
+		e.close()
+		ls[1].Close()
+		return
+	}
 	if strings.HasPrefix(kase, "wild") {
 		e.serveOn("0.0.0.0:0")
 	} else {
@@ -1058,6 +1218,8 @@ func scenAdmission(e *Env, args []string, r *rand.Rand) {
 			c := probe(p1.addr.String(), dst, "wrongdst")
 			c.waitEnd(stepWait)
 		}
+	case strings.HasSuffix(kase, "multi-wrong-dst"):
+		// handled before Serve (needs its own listeners)
 	case strings.HasSuffix(kase, "second-inbound"):
 		a := probe(p1.addr.String(), "127.0.0.1", "known")
 		p1.waitEv(0, stepWait, "log.t", "in", "*", "openSent")
@@ -1113,6 +1275,30 @@ func scenInboundFin(e *Env, args []string, r *rand.Rand) {
 func scenAPIRace(e *Env, args []string, r *rand.Rand) {
 	p := e.addPeer(1, PeerOpts{LocalAS: localAS, RemoteAS: remoteAS, Hold: 90, IdleHold: 20 * time.Millisecond})
 	p.plugin.CloseDelay = 60 * time.Millisecond
+	if args[0] == "close-add-window" || args[0] == "close-delete-window" {
+		// the call lands after Close has told the server to stop and before Serve's tear-down has taken the lock (the
+		// listener takes 200 ms to close): the server is still serving, so an added peer is started — and then stopped by
+		// the tear-down —, a deleted peer is stopped; Close returns, nothing is left running
+		e.serveSlowClose(200 * time.Millisecond)
+		c := p.bring("out", "established", 90, remoteID)
+		done := make(chan struct{}, 1)
+		go func() {
+			time.Sleep(60 * time.Millisecond)
+			if args[0] == "close-add-window" {
+				e.addPeer(2, PeerOpts{LocalAS: localAS, RemoteAS: remoteAS, Hold: 90, IdleHold: 20 * time.Millisecond})
+			} else {
+				p.delete()
+			}
+			done <- struct{}{}
+		}()
+		e.close()
+		<-done
+		_ = c
+		time.Sleep(60 * time.Millisecond)
+		ng, where := corebgpGoroutinesInfo()
+		e.tr.log("-", "goroutines", fmt.Sprint(ng), strings.ReplaceAll(where, " ", "_"))
+		return
+	}
 	e.serve()
 	c := p.bring("out", "established", 90, remoteID)
 	if c == nil {
@@ -1120,6 +1306,50 @@ func scenAPIRace(e *Env, args []string, r *rand.Rand) {
 		return
 	}
 	done := make(chan struct{}, 2)
+	if args[0] == "add-add" {
+		// the same peer is added by several callers at once while the server is serving and the remote answers every
+		// connection: one call succeeds, and there is never more than one session for the peer
+		p.delete()
+		time.Sleep(20 * time.Millisecond)
+		p.mark = e.tr.len()
+		var wg sync.WaitGroup
+		var okOnce sync.Once
+		e.tr.log(p.key, "api.call", "AddPeer2")
+		for k := 0; k < 6; k++ {
+			wg.Add(1)
+			go func() {
+				defer wg.Done()
+				err := e.srv.AddPeer(p.cfg, p.plugin, bgp.WithPort(p.port), bgp.WithIdleHoldTime(20*time.Millisecond))
+				name := "AddPeerN"
+				if err == nil {
+					// (a second success is logged as AddPeerN ok: the registry monitor counts it)
+					okOnce.Do(func() { name = "AddPeer2" })
+				}
+				e.tr.log(p.key, "api.ret", name, errName(err))
+			}()
+		}
+		wg.Wait()
+		for k := 0; k < 3; k++ {
+			var c2 *Conn
+			select {
+			case c2 = <-p.remote.accCh:
+			case <-time.After(300 * time.Millisecond):
+			}
+			if c2 == nil {
+				break
+			}
+			go func(c2 *Conn) {
+				if len(c2.waitMsgs(1, 300*time.Millisecond)) >= 1 {
+					c2.send(wire.Open(remoteAS, 90, remoteID, tag(c2)))
+					c2.waitMsgs(2, 300*time.Millisecond)
+					c2.send(wire.Keepalive())
+				}
+			}(c2)
+		}
+		time.Sleep(150 * time.Millisecond)
+		e.close()
+		return
+	}
 	if args[0] == "close-add" {
 		// AddPeer lands while Close is tearing the first peer down (its OnClose takes 60 ms): whatever the order,
 		// nothing of the new peer may be running once Close and AddPeer have both returned
@@ -1320,6 +1550,13 @@ func init() {
 				}
 				// reset while the FSM goroutine is busy: later writes report the failure
 				out = append(out, fmt.Sprintf("writers:%s:k=1:n=3:end=rst-busy:inside=0:ms=50:i=%d", dir, rep))
+				// an empty body is a body; the handler's NOTIFICATION under the adversary; a Cease while writers are blocked
+				out = append(out, fmt.Sprintf("writers:%s:k=2:n=20:end=cease:inside=1:empty=1:ms=100:i=%d", dir, rep))
+				if dir == "in" {
+					out = append(out, fmt.Sprintf("writers:in:k=3:n=300:end=veto:inside=0:pause=1:adv=1:ms=120:i=%d", rep))
+				} else {
+					out = append(out, fmt.Sprintf("writers:out:k=3:n=60:end=none:inside=0:big=1:stall=2600:ceaseat=300:ms=100:i=%d", rep))
+				}
 				// corebgp sends a NOTIFICATION (FSM error) while writers are busy, adversary on the connection
 				if dir == "in" {
 					out = append(out, fmt.Sprintf("writers:in:k=3:n=300:end=fsmerr:inside=0:pause=1:adv=1:ms=120:i=%d", rep))
@@ -1374,7 +1611,8 @@ func init() {
 		}
 		// the session under observation follows one that negotiated a different hold time (same peer; for
 		// dir=out the same FSM object)
-		out = append(out, "hold:out:l=3:r=3:pat=slowupd:ms=5500", "hold:in:l=3:r=9:pat=slowupd:ms=5500", "hold:out:l=90:r=3:pat=ka:ms=3500", "hold:in:l=90:r=3:pat=silent:ms=4500",
+		out = append(out, "hold:out:l=3:r=3:pat=updsilent:ms=4800", "hold:in:l=6:r=3:pat=updsilent:ms=4800", "hold:out:l=3:r=3:pat=silent:st=openConfirm:ms=4500", "hold:in:l=3:r=9:pat=silent:st=openConfirm:ms=4500",
+			"hold:out:l=3:r=3:pat=slowupd:ms=5500", "hold:in:l=3:r=9:pat=slowupd:ms=5500", "hold:out:l=90:r=3:pat=ka:ms=3500", "hold:in:l=90:r=3:pat=silent:ms=4500",
 			"hold:out:l=30:r=3:r1=9:pat=ka:ms=3500", "hold:out:l=30:r=3:r1=9:pat=silent:ms=4500",
 			"hold:out:l=3:r=3:r1=0:pat=silent:ms=4500", "hold:out:l=30:r=0:r1=3:pat=ka:ms=3500", "hold:in:l=30:r=3:r1=9:pat=ka:ms=3500")
 		return out
@@ -1403,6 +1641,13 @@ func init() {
 				out = append(out, fmt.Sprintf("collision-window:%s:lid=10.0.0.100:i=%d", v, rep), fmt.Sprintf("collision-window:%s:lid=10.0.0.100:i=%db", v, rep))
 			}
 			out = append(out, fmt.Sprintf("collision-window:est-window:lid=10.0.0.100:i=%d", rep), fmt.Sprintf("collision-window:est-window:lid=10.0.1.44:i=%d", rep))
+			for k := 0; k < 4; k++ {
+				out = append(out, fmt.Sprintf("collision-window:loser-down:lid=10.0.0.100:i=%d.%d", rep, k))
+			}
+			// the remote resolves the collision itself and sends Cease / Connection Collision Resolution on the loser
+			for _, lid := range []string{"10.0.0.100", "10.0.1.44"} {
+				out = append(out, fmt.Sprintf("collision:lid=%s:first=in:remotecease=1:i=%d", lid, rep), fmt.Sprintf("collision:lid=%s:first=out:remotecease=1:i=%d", lid, rep))
+			}
 			// the outbound connection of the collision is a re-dial of the same FSM
 			for _, lid := range []string{"10.0.0.100", "10.0.1.44"} {
 				out = append(out, fmt.Sprintf("collision:lid=%s:first=in:redial=1:i=%d", lid, rep), fmt.Sprintf("collision:lid=%s:first=out:redial=1:i=%d", lid, rep),
@@ -1425,7 +1670,7 @@ func init() {
 			n = 20
 		}
 		for _, api := range []string{"close", "delete"} {
-			for _, pt := range []string{"idle", "before-serve", "twopeers", "dial-window", "manypeers", "manypeers:i=1", "listeners:dir=in", "listeners:dir=out"} {
+			for _, pt := range []string{"idle", "before-serve", "twopeers", "dial-window", "manypeers", "manypeers:i=1", "listeners:dir=in", "listeners:dir=out", "slow-handler:dir=in"} {
 				out = append(out, fmt.Sprintf("shutdown:%s:%s", api, pt))
 			}
 			for _, dir := range []string{"out", "in"} {
@@ -1471,6 +1716,8 @@ func init() {
 	scenarioLists["C11"] = func(tier string, r *rand.Rand) []string {
 		out := []string{"reconnect:refuse:ih=200:cr=500", "reconnect:refuse:ih=50:cr=500", "reconnect:x:passive", "inbound-resume",
 			"reconnect:dialrace:ih=50:cr=60", "reconnect:refuse+dialrace:ih=50:cr=60", "reconnect:dialrace+close@openSent:ih=50:cr=60",
+			"damping:out:established:fin-midbody", "damping:out:openSent:fin-midbody", "damping:out:openConfirm:fin-midheader", "damping:in:openSent:fin-midbody",
+			"damping:out:openConfirm:rcvdcease.7", "damping:out:established:rcvdcease.0",
 			"inbound-resume:st=openSent", "inbound-resume:st=openConfirm", "inbound-resume:st=established:next=out", "inbound-resume:st=openConfirm:next=out",
 			"reconnect:cease@openSent+cease@openSent:ih=50:cr=500", "reconnect:cease@established+cease@openConfirm+cease@openSent:ih=50:cr=500", "inbound-resume:st=established:passive=1", "inbound-resume:st=openConfirm:passive=1",
 			"reconnect:stall:ih=100:cr=300", "inbound-fin:passive", "inbound-fin:active"}
@@ -1520,6 +1767,15 @@ func init() {
 			}
 		}
 		out = append(out, "damping-both:ka", "damping-both:badmarker", "damping-both:notif-other")
+		for _, dir := range []string{"out", "in"} {
+			// received Cease of every subcode; a stream that ends inside a message: no hold-down
+			for _, sub := range []int{0, 1, 3, 5, 7, 8, 9} {
+				out = append(out, fmt.Sprintf("damping:%s:%s:rcvdcease.%d", dir, []string{"openSent", "openConfirm", "established"}[sub%3], sub))
+			}
+			out = append(out, fmt.Sprintf("damping:%s:established:fin-midbody", dir), fmt.Sprintf("damping:%s:openSent:fin-midbody", dir), fmt.Sprintf("damping:%s:openConfirm:fin-midheader", dir))
+			// the remote reconnects while the error is still being handled
+			out = append(out, fmt.Sprintf("damping:%s:established:rcvd.3:slowerr=40", dir))
+		}
 		// the end of the hold-down period (timer expired through the hook): retried, establishes again
 		for _, dir := range []string{"out", "in"} {
 			out = append(out, fmt.Sprintf("damping:%s:established:sent.badmarker:expire=1:ms=600", dir), fmt.Sprintf("damping:%s:openConfirm:rcvd.3:expire=1:ms=600", dir),
@@ -1538,6 +1794,9 @@ func init() {
 				out = append(out, fmt.Sprintf("admission:%s-%s", l, k))
 			}
 			out = append(out, fmt.Sprintf("admission:%s-local-known", l), fmt.Sprintf("admission:%s-local-wrong-dst", l))
+			if l == "specific" {
+				out = append(out, "admission:specific-local-multi-wrong-dst")
+			}
 		}
 		for i := 0; i < 6; i++ {
 			out = append(out, fmt.Sprintf("admission:specific-prequeued:i=%d", i))
@@ -1568,7 +1827,7 @@ func init() {
 			n = 20
 		}
 		for i := 0; i < n; i++ {
-			for _, k := range []string{"delete-close", "delete-delete", "delete-add", "close-add"} {
+			for _, k := range []string{"delete-close", "delete-delete", "delete-add", "close-add", "add-add", "close-add-window", "close-delete-window"} {
 				out = append(out, fmt.Sprintf("api-race:%s:i=%d", k, i))
 			}
 		}
@@ -1578,7 +1837,7 @@ func init() {
 	}
 	scenarioLists["C14"] = func(tier string, r *rand.Rand) []string {
 		// + an OPEN sent after an earlier session negotiated a lower hold time (it must carry the configured one)
-		return []string{"open-caps:fresh", "open-caps:mutate", "open-caps:mutate:i=1", "open-caps:concurrent", "open-caps:concurrent:i=1", "open-caps:concurrent:i=2", "hold:out:l=30:r=3:r1=9:pat=ka:ms=1200", "hold:in:l=30:r=3:r1=9:pat=ka:ms=1200"}
+		return []string{"open-caps:fresh", "open-caps:mutate", "open-caps:mutate:i=1", "open-caps:concurrent", "open-caps:concurrent:i=1", "open-caps:concurrent:i=2", "hold:out:l=0:r=3:pat=ka:ms=600", "hold:in:l=0:r=0:pat=ka:ms=600", "hold:out:l=65535:r=3:pat=ka:ms=600", "hold:out:l=30:r=3:r1=9:pat=ka:ms=1200", "hold:in:l=30:r=3:r1=9:pat=ka:ms=1200"}
 	}
 	scenarioLists["C05"] = func(tier string, r *rand.Rand) []string {
 		var out []string
